@@ -101,8 +101,11 @@ class C02(CheckBase):
             for attr, nm in ((C.CKA_SENSITIVE, "sens"), (C.CKA_EXTRACTABLE, "extr"), (C.CKA_WRAP_WITH_TRUSTED, "wwt")):
                 for val in (True, False):
                     acts.append(("set", i, nm, val))
+            # CK_BBOOL values other than 0 and 1 ("true" to every consumer that tests for non-zero) must not get past a guard that compares with CK_TRUE
+            for val in (b"\x02", b"\xff"):
+                acts.append(("set", i, "extr", val))
             if len(m.keys) < self.max_keys:
-                for sub in ("none", "S0", "E1", "S0E1", "S1", "E0", "P1T1", "W0", "S0E1W0"):
+                for sub in ("none", "S0", "E1", "S0E1", "S1", "E0", "P1T1", "W0", "S0E1W0", "E2", "Eff"):
                     acts.append(("copy", i, sub))
                 if F.klass(k.kind) == C.CKO_SECRET_KEY:
                     for mm in ("base-and-data", "data-and-base"):
@@ -114,7 +117,7 @@ class C02(CheckBase):
                 acts.append(("concat-keys", 1, 0, sub))
         return acts
 
-    SUBS = {"none": [], "S0": [(C.CKA_SENSITIVE, False)], "E1": [(C.CKA_EXTRACTABLE, True)], "S0E1": [(C.CKA_SENSITIVE, False), (C.CKA_EXTRACTABLE, True)],
+    SUBS = {"E2": [(C.CKA_EXTRACTABLE, b"\x02")], "Eff": [(C.CKA_EXTRACTABLE, b"\xff")], "none": [], "S0": [(C.CKA_SENSITIVE, False)], "E1": [(C.CKA_EXTRACTABLE, True)], "S0E1": [(C.CKA_SENSITIVE, False), (C.CKA_EXTRACTABLE, True)],
             "S1": [(C.CKA_SENSITIVE, True)], "E0": [(C.CKA_EXTRACTABLE, False)], "P1T1": [(C.CKA_PRIVATE, True), (C.CKA_TOKEN, True)],
             "W0": [(C.CKA_WRAP_WITH_TRUSTED, False)], "S0E1W0": [(C.CKA_SENSITIVE, False), (C.CKA_EXTRACTABLE, True), (C.CKA_WRAP_WITH_TRUSTED, False)]}
 
